@@ -199,6 +199,10 @@ func runNILROOT(c *Ctx) {
 		r := work[0]
 		work = work[1:]
 		name := ir.FuncName(r.fn)
+		if why := c.Facts.debugOnlyFunc(r.fn); why != "" {
+			c.OK(P.Pos(r.fn.Pos()), "requires-root of "+name, "not applicable: "+why, true)
+			continue
+		}
 		exported := r.fn.Parent() == nil && r.fn.Object() != nil && r.fn.Object().Exported()
 		if exported {
 			if why, ok := linkGuardExceptions["NILROOT|"+name]; ok {
